@@ -12,12 +12,18 @@ pub(super) fn list_of_log_and_compressed_files(
     file_spec: &FileSpec,
     infix_filter: &InfixFilter,
 ) -> Vec<PathBuf> {
-    existing_log_files(
+    let files = existing_log_files(
         file_spec,
         true,
         infix_filter,
         &LogfileSelector::default().with_compressed_files(),
-    )
+    );
+    // existing_log_files() returns the plain files, followed by the compressed files;
+    // here we need them in one list, ordered by age (newest first), also if a plain file
+    // is older than a compressed one (e.g. after an interrupted cleanup)
+    let mut ordered_files = file_spec.read_dir_related_files();
+    ordered_files.retain(|file| files.contains(file));
+    ordered_files
 }
 
 pub(super) fn existing_log_files(
